@@ -1,5 +1,6 @@
 import Tftp.Props.C02
 import Tftp.Lemmas.ReceiverNoSpace
+import Tftp.Lemmas.ReceiverQ
 /-!
 # C13 — Failed uploads are cleaned up without harming completed ones
 
@@ -105,6 +106,58 @@ theorem c13_write_error (c : RCfg) (evs : List REv) :
     unfold rFinalFile
     simp only [hf, hc, Bool.false_eq_true, if_false]
     exact congrArg some hinv.empty
+
+/-- **write error at any point**: the target takes `q` more bytes (`none` = unlimited; `Model/ReceiverQ.lean`: the blocks of a flush
+are written one `write_all` at a time, the first that does not fit is written as far as it fits, then the flush fails). For every room
+and every script of events, at the end of the run: the file is a prefix of the bytes received in sequence and not longer than the room;
+a run that ended in success stored everything; a failed one is removed under clean-on-error, and what keep-on-error keeps is that prefix. -/
+theorem c13_write_error_at_any_point (c : RCfg) (q : Option Nat) (evs : List REv) :
+    let r := rRunFromQ c (rInit c) q evs
+    r.2.1.win.file.content <+: r.2.1.received.flatten ∧
+    (∀ q0, q = some q0 → r.2.1.win.file.content.length ≤ q0) ∧
+    (r.2.1.status = .ok → r.2.1.win.file.content = r.2.1.received.flatten) ∧
+    (r.2.1.status = .failed → c.cleanOnError = true → rFinalFile c r.2.1 = none) ∧
+    (r.2.1.status = .failed → c.cleanOnError = false →
+      ∃ kept, rFinalFile c r.2.1 = some kept ∧ kept <+: r.2.1.received.flatten) := by
+  intro r
+  have hinv := rRunFromQ_inv c q evs (rInit c) q (qinv_init c q)
+  refine ⟨hinv.pre, ?_, ?_, ?_, ?_⟩
+  · intro q0 hq
+    obtain ⟨r0, hr0⟩ := hinv.some_stays q0 hq
+    obtain ⟨q1, hq1, hlen⟩ := hinv.room_some r0 hr0
+    have : q1 = q0 := by rw [hq] at hq1; exact (Option.some.inj hq1).symm
+    have hlen' : (rRunFromQ c (rInit c) q evs).2.1.win.file.content.length + r0 = q1 := hlen
+    show (rRunFromQ c (rInit c) q evs).2.1.win.file.content.length ≤ q0
+    omega
+  · intro hok
+    have h1 := hinv.stored (by rw [hok]; simp)
+    rw [hinv.okEmpty hok] at h1
+    simpa using h1
+  · intro hf hc
+    unfold rFinalFile
+    simp only [hf, hc, if_true]
+  · intro hf hc
+    unfold rFinalFile
+    simp only [hf, hc, Bool.false_eq_true, if_false]
+    exact ⟨_, rfl, hinv.pre⟩
+
+/-- ... and at every moment of such a run an acknowledgement is emitted only over a file that holds every byte received in sequence
+(C02's "ACK means stored" survives write errors: the block that did not fit is never acknowledged) -/
+theorem c13_ack_means_stored_with_any_room (c : RCfg) (q : Option Nat) (evs : List REv) (ev : REv) :
+    let r := rRunFromQ c (rInit c) q evs
+    ∀ a ∈ (rStepQ c r.2.1 r.2.2 ev).2.2, a.file.content = (rStepQ c r.2.1 r.2.2 ev).1.received.flatten := by
+  intro r
+  exact (rStepQ_inv c q _ _ (rRunFromQ_inv c q evs (rInit c) q (qinv_init c q)) ev).2
+
+/-- with unlimited room the limited-room receiver is the receiver all other theorems are about -/
+theorem c13_unlimited_room_is_the_receiver (c : RCfg) (s : RState) (hcw : s.win.file.canWrite = true) (ev : REv) :
+    rStepQ c s none ev = ((rStep c s ev).1, none, (rStep c s ev).2) := rStepQ_none c s hcw ev
+
+/-- a 4-byte room: the first block is stored and acknowledged, the second fits half and fails the upload -/
+example : (rRunFromQ { b := 4, w := 1, rep := 1, cleanOnError := false } (rInit { b := 4, w := 1, rep := 1, cleanOnError := false }) (some 6)
+    [.data 1 [1, 2, 3, 4], .data 2 [5, 6, 7, 8]]).2.1.status = .failed ∧
+    (rRunFromQ { b := 4, w := 1, rep := 1, cleanOnError := false } (rInit { b := 4, w := 1, rep := 1, cleanOnError := false }) (some 6)
+    [.data 1 [1, 2, 3, 4], .data 2 [5, 6, 7, 8]]).2.1.win.file.content = [1, 2, 3, 4, 5, 6] := by decide
 
 /-- a data-carrying upload to such a target does fail (the guard of `c13_write_error` is met by real runs) -/
 example : (rRunFrom { b := 4, w := 2, rep := 1, cleanOnError := true } (rInitUnwritable { b := 4, w := 2, rep := 1, cleanOnError := true })
